@@ -215,6 +215,7 @@ type remote struct {
 	unchokedByStorrent bool
 	pendingUp          []rc.Msg // our requests storrent may still answer
 	cancelledUp        []rc.Msg // requests we cancelled (a Fast peer acknowledges with a reject)
+	votedSize          uint32   // metadata size announced in the remote's extended handshake
 	goneBefore         bool     // the peer had already exited before the transition being judged
 	gated              bool     // the peer's main loop parks before every select and takes the arm the harness names
 	gate               chan int
@@ -552,6 +553,7 @@ func (r *remote) sendExt0(metadataSize uint32) {
 	}
 	r.send(m)
 	r.sentExt0 = true
+	r.votedSize = metadataSize
 }
 
 // --- stepping a peer arm by arm (profile worldsel) ------------------------------
@@ -902,7 +904,7 @@ func (r *remote) process() {
 		}
 		r.onFrame(m, f)
 	}
-	if !stalled && !r.pendingOut() {
+	if !stalled && !r.pendingOut() && !r.gated {
 		r.grace = false
 		r.resolvedStalled = nil
 	}
@@ -1290,7 +1292,7 @@ func (w *World) apply(tr string) bool {
 			return false
 		}
 		r.send(m)
-		if r.stalled {
+		if r.stalled || r.gated {
 			r.resolvedStalled = append(r.resolvedStalled, o)
 		}
 		if consumed {
@@ -1323,7 +1325,7 @@ func (w *World) apply(tr string) bool {
 		}
 		o := r.outstanding[k]
 		r.send(rc.Msg{Kind: rc.Reject, Index: o.Index, Begin: o.Begin, Length: o.Length})
-		if r.stalled {
+		if r.stalled || r.gated {
 			r.resolvedStalled = append(r.resolvedStalled, o)
 		}
 		r.outstanding = append(r.outstanding[:k], r.outstanding[k+1:]...)
@@ -1389,13 +1391,14 @@ func (w *World) apply(tr string) bool {
 				}
 			}
 		}
-		if !queued {
+		if !queued || r.gated {
+			// (a gated peer has not read the Cancel yet: its upload tick may still serve the request)
 			r.crossedUp = append(r.crossedUp, q)
 		}
 		r.send(rc.Msg{Kind: rc.Cancel, Index: q.Index, Begin: q.Begin, Length: q.Length})
 		r.pendingUp = r.pendingUp[1:]
 		r.cancelledUp = append(r.cancelledUp, q)
-		r.grace = r.grace || r.stalled
+		r.grace = r.grace || r.stalled || r.gated
 	case "ucancelx": // a Cancel that matches nothing
 		if r.closed {
 			return false
@@ -1762,7 +1765,8 @@ func (w *World) checkOthersAlive(r *remote) {
 // unstalled, nothing can still be in flight, so the grace only lasts while the
 // remote's inbound side is stalled.
 func (r *remote) revoked() {
-	if r.stalled {
+	// (a gated peer has not handled what the remote sends it either)
+	if r.stalled || r.gated {
 		r.grace = true
 	}
 }
@@ -1787,7 +1791,7 @@ func (w *World) checkInvariants() {
 		if len(st.Upload) > 250 {
 			w.problem("C16", "C16/upload-queue-unbounded", "remote %d has %d upload requests queued (limit 250)", r.idx, len(st.Upload))
 		}
-		if !r.exited() && !r.stalled && !r.pendingOut() && len(r.p.Event) == 0 && st.WriterLen == 0 && st.AmUnchoking != r.unchokedByStorrent {
+		if !r.exited() && !r.closed && !r.stalled && !r.pendingOut() && len(r.p.Event) == 0 && st.WriterLen == 0 && st.AmUnchoking != r.unchokedByStorrent {
 			w.problem("C16", "C16/choke-state-mismatch", "storrent believes it is unchoking=%v remote %d, the wire says %v", st.AmUnchoking, r.idx, r.unchokedByStorrent)
 		}
 	}
